@@ -419,6 +419,7 @@ def smt_checks(tier):
     samples = _samples()
     live = _live_patterns()
     Z = {}
+    untranslated = set()
     for tag, (rx, firsts) in live.items():
         try:
             zfull = rex.to_z3(rx)
@@ -428,6 +429,7 @@ def smt_checks(tier):
             nval += rex.validate(rx, Z[tag], [x for x in samples if not x.endswith('\n')])
         except rex.Unsupported as e:
             res.append({'name': 'translate/' + tag[len(T):], 'status': 'inconclusive', 'seconds': 0, 'witness': str(e)})
+            untranslated.add(tag)
             continue
         res.append({'name': 'translate/' + tag[len(T):], 'status': 'held', 'seconds': 0, 'validated': nval,
                     'witness': 'translator agrees with re on %d repository/sample scalars' % nval})
@@ -459,6 +461,9 @@ def smt_checks(tier):
     # a. language equality, both directions, for the 7 tags of the reference
     for kind in spec.ORDER:
         tag = T + kind
+        if tag in untranslated:
+            res.append({'name': 'lang/%s' % kind, 'status': 'inconclusive', 'seconds': 0, 'witness': 'the live pattern could not be translated'})
+            continue
         if tag not in Z:
             res.append({'name': 'lang/%s' % kind, 'status': 'violated', 'seconds': 0, 'witness': 'no live pattern for ' + kind,
                         'replay': {'module': 'c08', 'fn': 'load_plain', 'args': "{'s': %r}" % {'null': '~', 'bool': 'yes', 'int': '1', 'float': '1.5',
